@@ -249,6 +249,7 @@ separators, so two different manifests can have the same pre-image (a mirror can
 `k₁‖v₁‖k₂` for `k₂` — but cannot change a content) -/
 def manifestPreimage (m : List (List Char × List Char)) : List Char := m.flatMap fun e => e.1 ++ e.2
 
+/- VACUITY AUDIT: no longer an obligation of the check. its local definition is tied to no model function. Replaced by: -. -/
 theorem C19_manifest_hash_note (k₁ v₁ k₂ v₂ : List Char) :
     manifestPreimage [(k₁, v₁), (k₂, v₂)] = manifestPreimage [(k₁ ++ v₁ ++ k₂, v₂)] := by
   simp [manifestPreimage]
